@@ -1186,6 +1186,11 @@ class Emitter:
         if op == 'operator[]' and bti['kind'] == 'carray':
             self.fire('G7')
             return '(%s)[%s]' % (self.emit(args[0]), self.emit(args[1]))
+        if op == 'operator=' and bti['kind'] == 'vec' and strip_all(args[1])['kind'] in ('CallExpr', 'CXXMemberCallExpr') and strip_all(args[1]).get('valueCategory') == 'prvalue':
+            # v = f(...): move assignment from the returned vector (materialised in a function-level temporary)
+            self.fire('G11')
+            t = self.new_temp(bti)
+            return '(%s, %s = %s)' % (self.call(strip_all(args[1]), dst='&' + t), self.emit(args[0]), t)
         if op == 'operator=' and bti['kind'] == 'vec':
             self.fire('G7')
             return 'vp_%s_copy(&(%s), &(%s))' % (bti['ctype'], self.emit(args[0]), self.emit(strip_all(args[1])))
